@@ -293,6 +293,10 @@ func fRunPlanMode(t *testing.T, plan fPlan, real bool) (run fRun) {
 					case op.DoneCtx:
 						ctx, cancel = context.WithCancel(ctx)
 						cancel()
+					case op.DeadlineUs > 0 && op.CancelUs > 0:
+						// a deadline far away and a manual cancel before it (a request context with a timeout that its caller abandons)
+						ctx, cancel = context.WithTimeout(ctx, time.Duration(op.DeadlineUs)*time.Microsecond)
+						time.AfterFunc(time.Duration(op.CancelUs)*time.Microsecond, cancel)
 					case op.DeadlineUs > 0 && op.Cause:
 						ctx, cancel = context.WithTimeoutCause(ctx, time.Duration(op.DeadlineUs)*time.Microsecond, errPlanCause)
 					case op.DeadlineUs > 0:
@@ -331,6 +335,9 @@ func fRunPlanMode(t *testing.T, plan fPlan, real bool) (run fRun) {
 					switch op.Kind {
 					case "do", "block":
 						r.Results = []rueidis.RedisResult{client.Do(ctx, build(op.Cmds[0], op.Kind == "block"))}
+					case "blockpipe":
+						// a blocking command that the caller forces onto the shared pipeline connection
+						r.Results = []rueidis.RedisResult{client.Do(ctx, build(op.Cmds[0], true).ToPipe())}
 					case "multi":
 						cmds := make(rueidis.Commands, len(op.Cmds))
 						for i, c := range op.Cmds {
